@@ -114,3 +114,7 @@ HARNESSES += [
          bounds="every pattern of <= 3 bytes against every name of <= 3 bytes (bytes 0x01..0xFF)",
          stubs=[], claim="the real recursive match_glob agrees with an independent iterative matcher (* any run incl. empty, ? one character, literal otherwise, whole-name match)"),
 ]
+
+# command-line option parsing (quiet levels, verbose modifier) belongs to C19's statement too: reuse C06's harness (its assertions are tagged C06/C19)
+import C06 as _C06
+HARNESSES += [h for h in _C06.HARNESSES if h["name"] == "options.n5"]
